@@ -95,6 +95,22 @@ def judge(acc, f, r, o, s, b, us, route, carrier, int_params, part):
                               {'part': part, 'route': route}, full=case)
                 return
             acc.outcome('readback_checked')
+    # reads are pure: integer / float / element reads, repeated, leave the codes alone
+    if route == 'ctor':
+        try:
+            for _ in range(2):
+                x.astype(int) if f.n_frac <= 0 else None
+                x.get_val(), x.astype(float), x(), x.raw(), str(x)
+                int(x[0]) if f.n_frac <= 0 and len(expc) else None
+            acc.transitions += 6
+            gv_again = np.asarray(x.get_val(), dtype=np.float64).tolist()
+        except Exception as e:
+            acc.violation('exception', case, '%s: repeated reads raised %r' % (sig, e), {'part': part, 'route': 'reads'})
+            return
+        if codes(x) != expc or [Fraction(v) for v in gv_again] != [Fraction(v) for v in gv]:
+            acc.violation('readback', case, '%s: after reading (astype(int), get_val, raw, int(x[0]) ...) the object holds codes %s and reads %s, before %s / %s'
+                          % (sig, codes(x)[:4], gv_again[:4], expc[:4], gv[:4]), {'part': part, 'route': 'reads', 'aspect': 'purity'})
+            return
     # the same read-back through element routes: item=, index=, .item(), x[i]()
     if route == 'ctor' and len(expc) >= 1:
         for i in sorted({0, len(expc) - 1}):
@@ -252,6 +268,23 @@ def judge_infer(acc, u, s, b, pattern, int_params, part):
             acc.violation('inference', case, 'Fxp(%r, scale=%r, bias=%r): code %s flags %s, expected exact code %d' % (vv, sp, bp, codes(x), flags(x), c),
                           {'part': part, 'aspect': 'inference_value'})
     acc.outcome('inference_ok')
+    # differential, oracle-free: with any inference option (a coarse error target, a word limit, a rounding mode) the scaled object must
+    # size and store exactly like the UNSCALED object built from the transformed value (v-b)/s with the same options
+    uu = int(uf) if uf.denominator == 1 and int_params else float(uf)
+    for opts in ({'max_error': 2.0 ** -6}, {'max_error': 2.0 ** -3}, {'max_error': 0.5, 'rounding': 'around'}, {'n_word_max': 12}, {'rounding': 'ceil'}):
+        acc.transitions += 2
+        acc.evaluations += 1
+        try:
+            xs_ = Fxp(vv, scale=sp, bias=bp, **pattern, **opts)
+            xu_ = Fxp(uu, **pattern, **opts)
+        except Exception as e:
+            acc.violation('exception', dict(case, opts=str(opts)), 'Fxp(%r, scale=%r, bias=%r, %s, %s) raised %r' % (vv, sp, bp, pattern, opts, e), {'part': part, 'aspect': 'inference_opts'})
+            continue
+        if (fmt_of(xs_), codes(xs_), flags(xs_)) != (fmt_of(xu_), codes(xu_), flags(xu_)):
+            acc.violation('inference', dict(case, opts=str(opts)), 'Fxp(%r, scale=%r, bias=%r, %s, %s) gives %s code %s flags %s; the unscaled object built from %r gives %s code %s flags %s'
+                          % (vv, sp, bp, pattern, opts, xs_.dtype, codes(xs_), flags(xs_), uu, xu_.dtype, codes(xu_), flags(xu_)), {'part': part, 'aspect': 'inference_opts'})
+        else:
+            acc.outcome('inference_opts_ok')
 
 
 def bounds(tier, seed):
